@@ -25,6 +25,8 @@ def universe_at(cfg, t):
     u = cfg["universe"]
     if u["kind"] == "static":
         return list(u["assets"])
+    if u["kind"] == "leaving":
+        return [a for a in u["assets"] if a not in u["leave"] or t < u["leave"][a]]
     return [a for a, e in u["entries"].items() if e is not None and e <= t]
 
 
